@@ -25,6 +25,7 @@ class SuiteSparseSolver:
         self.factorize = True
         self.new_A = False  # does not need to handle new A in suitesparse solvers
         self.use_linsolve = False
+        self._pattern = None  # sparsity pattern for which ``self.F`` was computed
 
     def clear(self):
         """
@@ -36,6 +37,37 @@ class SuiteSparseSolver:
         self.N = None   # numeric factorization
         self.factorize = True
         self.use_linsolve = False
+        self._pattern = None
+
+    @staticmethod
+    def _get_pattern(A):
+        """
+        Return the sparsity pattern of ``A`` (size, column pointers and row indices).
+        """
+        colptr, rowind, _ = A.CCS
+        return A.size, np.array(colptr).ravel(), np.array(rowind).ravel()
+
+    def _pattern_changed(self, A):
+        """
+        Check if the sparsity pattern of ``A`` differs from the one of the cached symbolic factorization.
+
+        ``klu.numeric`` accepts a symbolic factorization computed for another pattern and
+        returns wrong results, so the pattern needs to be compared explicitly.
+        """
+        if self._pattern is None:
+            return True
+
+        size, colptr, rowind = self._get_pattern(A)
+        return (size != self._pattern[0]) or \
+            (not np.array_equal(colptr, self._pattern[1])) or \
+            (not np.array_equal(rowind, self._pattern[2]))
+
+    def _refresh_symbolic(self):
+        """
+        Compute and cache the symbolic factorization of ``self.A`` and remember its sparsity pattern.
+        """
+        self.F = self._symbolic(self.A)
+        self._pattern = self._get_pattern(self.A)
 
     def _symbolic(self, A):
         """
@@ -117,8 +149,8 @@ class SuiteSparseSolver:
         self.A = A
         self.b = b
 
-        if self.factorize is True:
-            self.F = self._symbolic(self.A)
+        if self.factorize is True or self._pattern_changed(self.A):
+            self._refresh_symbolic()
             self.factorize = False
 
         try:
@@ -128,7 +160,7 @@ class SuiteSparseSolver:
             return np.ravel(self.b)
         except ValueError:
             logger.debug('Unexpected symbolic factorization.')
-            self.F = self._symbolic(self.A)
+            self._refresh_symbolic()
             self.solve(self.A, self.b)
 
             return np.ravel(self.b)
